@@ -227,6 +227,24 @@ type callbacks struct {
 	done     bool
 	sentinel map[string]bool
 	seen     chan sentinelSeen
+	holdReq  bool          // the next callback blocks after it has been logged
+	blocked  bool          // a callback is blocked at the gate
+	gate     chan struct{} // closed by release
+}
+
+// block is called with c.mu held at the end of every callback: a slow consumer.  The syncer's main loop stays
+// inside the callback until the driver releases it; meanwhile the caches keep filling the results channel.
+func (c *callbacks) block() {
+	if !c.holdReq {
+		return
+	}
+	c.holdReq = false
+	c.blocked = true
+	ch := c.gate
+	c.mu.Unlock()
+	<-ch
+	c.mu.Lock()
+	c.blocked = false
 }
 
 type sentinelSeen struct {
@@ -253,6 +271,7 @@ func (c *callbacks) OnStatusUpdated(s api.SyncStatus) {
 		return
 	}
 	c.log.Emit("cb_status", map[string]any{"s": statusName(s)})
+	c.block()
 }
 
 func (c *callbacks) OnUpdates(us []api.Update) {
@@ -281,6 +300,7 @@ func (c *callbacks) OnUpdates(us []api.Update) {
 		default:
 		}
 	}
+	c.block()
 }
 
 func (c *callbacks) SyncFailed(err error) {
@@ -290,6 +310,7 @@ func (c *callbacks) SyncFailed(err error) {
 		return
 	}
 	c.log.Emit("cb_syncfailed", nil)
+	c.block()
 }
 
 // ---- driver --------------------------------------------------------------------------------------------------------
@@ -513,7 +534,8 @@ func quiescent(ncaches int) bool {
 		}
 		state, top := m[1], lines[1]
 		if isMain {
-			if state != "chan receive" || !strings.Contains(top, "(*watcherSyncer).run") {
+			// parked receiving from the (empty) results channel, or inside a callback the driver holds at its gate
+			if state != "chan receive" || !(strings.Contains(top, "(*watcherSyncer).run") || strings.HasPrefix(top, "main.(*callbacks).block")) {
 				return false
 			}
 			mains++
@@ -548,6 +570,30 @@ func (d *drv) settle() {
 	}
 }
 
+func (d *drv) hold() {
+	d.cb.mu.Lock()
+	defer d.cb.mu.Unlock()
+	if d.cb.holdReq || d.cb.blocked {
+		return
+	}
+	d.cb.holdReq = true
+	d.cb.gate = make(chan struct{})
+	d.log.Emit("hold", nil)
+}
+
+func (d *drv) release() {
+	d.cb.mu.Lock()
+	defer d.cb.mu.Unlock()
+	if !d.cb.holdReq && !d.cb.blocked {
+		return
+	}
+	d.log.Emit("release", nil)
+	if d.cb.blocked {
+		close(d.cb.gate)
+	}
+	d.cb.holdReq = false
+}
+
 func (d *drv) step(op map[string]any) {
 	t := tracelog.Str(op["t"])
 	switch tracelog.Str(op["op"]) {
@@ -560,6 +606,10 @@ func (d *drv) step(op map[string]any) {
 		d.deliver(t)
 	case "wev":
 		d.wev(t, tracelog.Str(op["kind"]))
+	case "hold":
+		d.hold()
+	case "release":
+		d.release()
 	case "cfg", "end":
 		return
 	default:
@@ -570,6 +620,8 @@ func (d *drv) step(op map[string]any) {
 
 // heal: answer everything OK and deliver everything until every type has an open, drained watch; then the sentinel
 func (d *drv) finish() {
+	d.release()
+	d.settle()
 	for _, t := range d.ts {
 		d.f.mu.Lock()
 		virgin := d.f.types[t].nrev == 0
@@ -634,6 +686,11 @@ func (d *drv) random(t int, rnd *rand.Rand) {
 	faulty := 5 + rnd.Intn(30) // percentage of faulty answers
 	for i := 0; i < steps; i++ {
 		ty := d.ts[rnd.Intn(2)]
+		if h := rnd.Intn(100); h < 6 {
+			d.hold()
+		} else if h < 14 {
+			d.release()
+		}
 		switch c := rnd.Intn(100); {
 		case c < 30:
 			d.mutate(ty, keys[rnd.Intn(nk)], rnd.Intn(3) == 0)
@@ -653,6 +710,64 @@ func (d *drv) random(t int, rnd *rand.Rand) {
 			}
 		}
 		d.settle()
+	}
+	d.finish()
+}
+
+// connloss: sustained connection loss with SendDeletesOnConnFail while the consumer is blocked in a callback, so
+// that the deletes and the WaitForDatastore status are consolidated in one pass of the syncer's main loop.
+// Inputs only; the verdict ("no update while waiting for the datastore") is the property layer's.
+func (d *drv) connloss(t int, rnd *rand.Rand, variant int) {
+	keys := []string{"k1", "k2", "k3", "k4"}
+	sd := map[string]bool{"a": true, "b": true}
+	if variant%8 == 7 {
+		sd["b"] = false
+	}
+	d.begin(t, keys, "always", sd) // watchRetryTimeout always exceeded: a failed List is "sustained" connection loss
+	order := []string{"a", "b"}
+	if variant%2 == 1 {
+		order = []string{"b", "a"}
+	}
+	for _, ty := range order {
+		n := 1 + rnd.Intn(3)
+		for i := 0; i < n; i++ {
+			d.mutate(ty, keys[i], false)
+		}
+		d.reply(ty, "ok") // List
+		d.settle()
+		d.reply(ty, "ok") // Watch
+		d.settle()
+	}
+	withHold := variant%4 != 3
+	if withHold {
+		// block the consumer inside the callback of one more update
+		d.hold()
+		d.mutate(order[0], "k4", false)
+		d.deliver(order[0])
+		d.settle()
+	}
+	for _, ty := range order {
+		if (variant/2)%2 == 0 {
+			d.wev(ty, "expired") // full resync
+			d.settle()
+		} else {
+			for i := 0; i < 5; i++ { // MaxErrorsPerRevision watch failures at one revision
+				d.wev(ty, "error")
+				d.settle()
+				if i < 4 {
+					d.reply(ty, "ok") // the watch is re-created
+					d.settle()
+				}
+			}
+		}
+		d.reply(ty, "err") // the re-List fails: deletes (SendDeletesOnConnFail), then WaitForDatastore
+		d.settle()
+	}
+	d.release()
+	d.settle()
+	if rnd.Intn(2) == 0 {
+		// the datastore comes back while nothing has been listed yet
+		d.mutate(order[0], "k2", rnd.Intn(2) == 0)
 	}
 	d.finish()
 }
@@ -699,7 +814,12 @@ func main() {
 	}
 	for i := 0; i < env.N; i++ {
 		t++
-		d.random(t, rand.New(rand.NewSource(env.Seed*1000003+int64(i))))
+		rnd := rand.New(rand.NewSource(env.Seed*1000003 + int64(i)))
+		if os.Getenv("VERIF_MODE") == "connloss" || i < 8 {
+			d.connloss(t, rnd, i)
+		} else {
+			d.random(t, rnd)
+		}
 	}
 	if err := lg.Close(); err != nil {
 		fatal("%v", err)
